@@ -29,7 +29,7 @@ def gen_scenario(rng, flavour=None):
             elif r < 9:
                 L.append(f"run {rng.range(1, 3)}")
             elif r < 11:
-                if modes[s] != "imm":
+                if modes[s] != "imm" and s not in closed:
                     L.append(f"accept {s}" + (" busy" if rng.chance(1, 10) else ""))
             elif r < 12:
                 L.append("inject " + " ".join(str(rng.choice([24, 23, 11, 103, 0])) for _ in range(rng.range(1, 2))))
@@ -117,7 +117,7 @@ def sim_monitor(prog, meta, out):
         w = o.split()
         if w[0] != "cli": continue
         c = int(w[1]); d = kv(o)
-        if d["kind"] == "bad" or c in self_closed: continue
+        if d["kind"] == "bad" or c in self_closed or c not in cli_sid: continue
         s = cli_sid[c]
         if s in unavailable: continue
         connected = (d["kind"] == "raw" and d["ret"] == "0") or (d["kind"] == "uvc" and d["cbs"] == "1" and d["status"] == "0")
@@ -135,6 +135,8 @@ def sim_monitor(prog, meta, out):
         w = o.split()
         if w[0] != "final": continue
         c = int(w[1]); d = kv(o); ret, cbs, st = int(d["ret"]), int(d["cbs"]), int(d["status"])
+        if ret == 0 and cbs != 1 and any(l.startswith("dblconnect") and str(c) in l.split()[1:] for l in prog):
+            return ("pipe-connect-overlap-lost-request", f"two uv_pipe_connect() on one handle both returned 0; request {c} got {cbs} callbacks (connect_req overwritten, pipe.c:331-338)")
         if ret == 0 and cbs != 1: return ("connect-cb-count", f"connect request {c} accepted but {cbs} callbacks")
         if ret != 0 and cbs != 0: return ("connect-cb-after-error", f"connect request {c} refused ({ret}) but callback ran")
         bad = next((l for l in prog if l.startswith(f"badconnect {c} ")), None)
@@ -311,10 +313,10 @@ def one(ctx, exe, prog, meta, diff=True):
     except Exception as e:
         bad = ("sim-log-unreadable", f"monitor could not read the log: {e!r}")
     if bad:
-        sp = shrink(ctx, exe, prog, meta, bad[0])
+        sp = prog if bad[0] in ctx.known else shrink(ctx, exe, prog, meta, bad[0])
         if ctx.violation(bad[0], "C07: " + bad[1], {"mode": "sim", "prog": sp, "drained": sorted(meta["drained"])}):
             return False
-        return True
+        return True       # a recorded finding: reported as KNOWN-FINDING, run goes on
     if diff:
         d = model_diff(ctx, prog, out)
         if d:
@@ -339,11 +341,22 @@ FIXED = [
     (["server 0 t4 defer", "raw 0 0", "run 2", "accept 0", "raw 1 0", "raw 2 0", "run 2", "drain 0", "end"], {0}),
     (["server 0 un defer", "uvc 0 0", "run 2", "accept 0", "uvc 1 0", "run 2", "drain 0", "end"], {0}),
     (["server 0 t6 imm", "inject 24", "raw 0 0", "raw 1 0", "run 2", "raw 2 0", "run 2", "inject 23", "raw 3 0", "run 2", "raw 4 0", "run 2", "end"], set()),
+    (["dblconnect 100 101", "run 3", "end"], set()),
     (["badconnect 100 tcp", "badconnect 101 pipe", "badconnect 102 long", "badconnect 103 longnt", "badconnect 104 tcp close", "badconnect 105 pipe close", "run 3", "wcheck", "end"], set()),
 ]
 
 
 def run_sim_part(ctx, exe, replay=None, search=False):
+    try:
+        return _run_sim_part(ctx, exe, replay, search)
+    finally:
+        for f in Path("/var/tmp").glob("c07sim-*.sock"):     # left behind only when the harness crashed
+            try:
+                if time.time() - f.stat().st_mtime > 600: f.unlink()   # not a concurrently running check's socket
+            except OSError: pass
+
+
+def _run_sim_part(ctx, exe, replay=None, search=False):
     if replay:
         one(ctx, exe, replay["prog"], {"drained": set(replay.get("drained", []))})
         return 1
@@ -360,7 +373,7 @@ def run_sim_part(ctx, exe, replay=None, search=False):
     for prog, dr in FIXED:
         n += 1
         if not one(ctx, exe, prog, {"drained": dr}): return n
-    for _ in range(ctx.scale(120, 4000)):
+    for _ in range(ctx.scale(120, 2500)):
         prog, meta = gen_scenario(ctx.rng); n += 1
         if n <= 3: ctx.sample({"sim_program": prog[:16]})
         if not one(ctx, exe, prog, meta): break
